@@ -122,6 +122,8 @@ class Corpus:
         for r in results:
             self.rep.add_tlc(r)
         self.rep.count("traces_validated_against_impl", len(self.recs))
+        self.learnt = dict(decode_rec.judge.last_learnt)
+        self.conflicts = list(decode_rec.judge.last_conflicts)
         return verdicts
 
 
